@@ -17,6 +17,10 @@ inductive Op where
   | seek (s : SeekFrom)
   | setPos (n : Nat)
   | flush
+  -- provided methods of `Read` / `Write` (overridden by both cursors, or built from `read` / `write`)
+  | readToEnd
+  | readExact (n : Nat)
+  | writeAll (buf : B)
   deriving Repr, DecidableEq
 
 inductive Out where
@@ -25,6 +29,7 @@ inductive Out where
   | pos (n : Nat)
   | unit
   | invalidInput
+  | eof            -- `UnexpectedEof` of `read_exact`
   | panic
   deriving Repr, DecidableEq
 
@@ -51,21 +56,27 @@ def ACur.asBytes (a : ACur) : B := (List.range a.len).map a.get
 
 def ceilDiv (n a : Nat) : Nat := (n + (a - 1)) / a
 
+/-- `write` -/
+def ACur.write (al : Nat) (a : ACur) (buf : B) : ACur × Out :=
+  let len := min buf.length (usizeMax - a.pos)
+  if buf.length ≠ 0 ∧ len = 0 then (a, .invalidInput)
+  else if len < buf.length then (a, .panic)   -- copy_from_slice length mismatch
+  else
+    let cap' := if a.cap < a.pos + len then ceilDiv (a.pos + len) al * al else a.cap
+    let get' := fun i => if a.pos ≤ i ∧ i < a.pos + len then buf.getD (i - a.pos) 0 else a.get i
+    ({ cap := cap', get := get', pos := a.pos + len, len := max a.len (a.pos + len) }, .wrote len)
+
+/-- `read` into a buffer of `n` bytes -/
+def ACur.read (a : ACur) (n : Nat) : ACur × Out :=
+  if a.pos ≥ a.len then (a, .bytes [])
+  else
+    let k := min n (a.len - a.pos)
+    ({ a with pos := a.pos + k }, .bytes ((List.range k).map fun i => a.get (a.pos + i)))
+
 /-- one operation of `AlignedCursor<A>` where `A` has `al` bytes -/
 def ACur.step (al : Nat) (a : ACur) : Op → ACur × Out
-  | .write buf =>
-      let len := min buf.length (usizeMax - a.pos)
-      if buf.length ≠ 0 ∧ len = 0 then (a, .invalidInput)
-      else if len < buf.length then (a, .panic)   -- copy_from_slice length mismatch
-      else
-        let cap' := if a.cap < a.pos + len then ceilDiv (a.pos + len) al * al else a.cap
-        let get' := fun i => if a.pos ≤ i ∧ i < a.pos + len then buf.getD (i - a.pos) 0 else a.get i
-        ({ cap := cap', get := get', pos := a.pos + len, len := max a.len (a.pos + len) }, .wrote len)
-  | .read n =>
-      if a.pos ≥ a.len then (a, .bytes [])
-      else
-        let k := min n (a.len - a.pos)
-        ({ a with pos := a.pos + k }, .bytes ((List.range k).map fun i => a.get (a.pos + i)))
+  | .write buf => a.write al buf
+  | .read n => a.read n
   | .seek (.start n) => if n > usizeMax then (a, .invalidInput) else ({ a with pos := n }, .pos n)
   | .seek (.end i) =>
       match addSigned a.len i with
@@ -77,6 +88,16 @@ def ACur.step (al : Nat) (a : ACur) : Op → ACur × Out
       | none => (a, .invalidInput)
   | .setPos n => ({ a with pos := n }, .unit)
   | .flush => (a, .unit)
+  -- the provided `read_to_end` calls `read` until it returns nothing: one `read` of everything that is left
+  | .readToEnd => a.read (a.len - a.pos)
+  -- `read_exact` (overridden): all `n` bytes, or `UnexpectedEof` with the position moved to the end
+  | .readExact n =>
+      if n ≤ a.len - a.pos then a.read n else ({ a with pos := a.len }, .eof)
+  -- `write_all` (overridden): one `write`, which takes everything or fails
+  | .writeAll buf =>
+      match a.write al buf with
+      | (a', .wrote _) => (a', .unit)
+      | r => r
 
 /-! ### The standard cursor over a byte vector -/
 
@@ -86,16 +107,20 @@ structure SCur where
 
 def SCur.init : SCur := { buf := [], pos := 0 }
 
+/-- `write` (`vec_write`): zeros up to the position (also for an empty write), then overwrite / extend -/
+def SCur.write (s : SCur) (b : B) : SCur × Out :=
+  let v := if s.pos > s.buf.length then s.buf ++ zeros (s.pos - s.buf.length) else s.buf
+  let v' := v.take s.pos ++ b ++ v.drop (s.pos + b.length)
+  ({ buf := v', pos := s.pos + b.length }, .wrote b.length)
+
+def SCur.read (s : SCur) (n : Nat) : SCur × Out :=
+  let rem := s.buf.drop (min s.pos s.buf.length)
+  let k := min n rem.length
+  ({ s with pos := s.pos + k }, .bytes (rem.take k))
+
 def SCur.step (s : SCur) : Op → SCur × Out
-  | .write b =>
-      -- reserve_and_pad: zeros up to the position (also for an empty write), then overwrite/extend
-      let v := if s.pos > s.buf.length then s.buf ++ zeros (s.pos - s.buf.length) else s.buf
-      let v' := v.take s.pos ++ b ++ v.drop (s.pos + b.length)
-      ({ buf := v', pos := s.pos + b.length }, .wrote b.length)
-  | .read n =>
-      let rem := s.buf.drop (min s.pos s.buf.length)
-      let k := min n rem.length
-      ({ s with pos := s.pos + k }, .bytes (rem.take k))
+  | .write b => s.write b
+  | .read n => s.read n
   | .seek (.start n) => ({ s with pos := n }, .pos n)
   | .seek (.end i) =>
       match addSigned s.buf.length i with
@@ -107,6 +132,13 @@ def SCur.step (s : SCur) : Op → SCur × Out
       | none => (s, .invalidInput)
   | .setPos n => ({ s with pos := n }, .unit)
   | .flush => (s, .unit)
+  -- `read_to_end`: the remaining slice is appended, the position advanced by its length
+  | .readToEnd => s.read (s.buf.length - s.pos)
+  -- `read_exact`: `Ok` advances by `n`; the only error is EOF, "so place the cursor at EOF"
+  | .readExact n =>
+      if n ≤ s.buf.length - s.pos then s.read n else ({ s with pos := s.buf.length }, .eof)
+  -- `write_all` (`vec_write_all`): the same padding and copy as `write`
+  | .writeAll b => ((s.write b).1, .unit)
 
 /-- run a history, collecting the outputs -/
 def ACur.run (al : Nat) (a : ACur) : List Op → ACur × List Out
